@@ -90,6 +90,15 @@ class Shadow:
             t = st["tgt"]
             if t in self.owner:
                 self.epoch[self.owner[t]] = i
+        elif k == "sever":
+            for t in st["names"]:
+                v = self.it.env[t]
+                root = root_array(v)
+                self.roots[id(root)] = t
+                self._keep.append(root)
+                self.owner[t] = t
+                self.idx[t] = np.arange(v.size).reshape(v.shape)
+                self.epoch[t] = i
         elif k == "setshape":
             t = st["tgt"]
             if t in self.idx:
